@@ -434,6 +434,7 @@ NeedsMissingFeature(flags, q) ==
     [] q.res = "agg" -> q.pit # 0 /\ IF q.ins THEN ~flags.moves ELSE ~flags.eff
     [] q.res = "accounts" -> \/ (q.xvol /\ ~flags.moves)
                              \/ (q.xevol /\ ~flags.eff)
-                             \/ (q.pit # 0 /\ UsesField(q.filter, "balance") /\ ~flags.moves)
+                             \* a balance as of t is an effective-date balance: it needs the effective volumes
+                             \/ (q.pit # 0 /\ UsesField(q.filter, "balance") /\ ~flags.eff)
     [] OTHER -> FALSE
 =============================================================================
